@@ -346,6 +346,9 @@ WELLKNOWN = ['APPLICATION_JSON', 'TEXT_PLAIN', 'MESSAGE_RSOCKET_COMPOSITE_METADA
 
 
 def _gen_period_us(rng):
+    if rng.random() < 0.1:
+        # a day and more (the wire field holds up to 2^31-1 ms, about 24.8 days)
+        return rng.choice([86_400_000, 2 * 86_400_000 + 10_800_250, 7 * 86_400_000, 0x7FFFFFFF]) * 1000
     return _pick(rng, [(2, rng.choice([1, 2, 250, 500, 750, 999]) * 1000), (2, rng.choice([1000, 1250, 1500, 2500, 30_000]) * 1000),
                        (2, rng.randint(1, 600_000) * 1000), (1, 600_000_000), (1, rng.randint(1, 2_000_000) * 1000)])
 
@@ -362,7 +365,7 @@ def gen_setup_client(seed, opts=None):
         return {'wellknown': rng.choice(WELLKNOWN)}
 
     ka, lt = _gen_period_us(rng), _gen_period_us(rng)
-    cfg = {'keepalive_us': ka, 'lifetime_us': max(lt, ka * 3), 'data_encoding': enc(), 'metadata_encoding': enc(),
+    cfg = {'keepalive_us': ka, 'lifetime_us': min(max(lt, ka * 3), 0x7FFFFFFF * 1000), 'data_encoding': enc(), 'metadata_encoding': enc(),
            'honor_lease': rng.random() < 0.3, 'fragment': _pick(rng, [(3, None), (1, 64)])}
     if rng.random() < 0.6:
         sp = {}
